@@ -25,6 +25,14 @@ def run (t : List String) : String :=
   -- by the configuration of the server it talks to now.
   -- the CA file a client names was replaced (CA 1 now): the client built afterwards is configured with CA 1, whatever an
   -- earlier client of the process read from that path (same case as `wrongca`, reached by a different history)
+  -- a set generated at time g (any moment will do for the model: 2024-01-01) and judged at g - skew
+  | ["skew", k] =>
+    let g : Int := 1704067200
+    let p : Int := g - (match k.toInt? with | some v => v | none => 0)
+    if handshake 0 0
+        (presented p Selium.Gen.Tls.genClientEku (genCa 0 false g) (genEntity 0 Selium.Gen.Tls.genClientEku false g))
+        (presented p Selium.Gen.Tls.genServerEku (genCa 0 false g) (genEntity 0 Selium.Gen.Tls.genServerEku false g))
+    then "accept" else "refuse"
   | ["cafile", s] => if handshake 0 1 (.signedBy 0 "localhost") (ident s) then "accept" else "refuse"
   | ["rotate", _] => if handshake 1 0 (.signedBy 0 "localhost") (.signedBy 0 "localhost") then "accept" else "refuse"
   -- a server certified by CA 1 that pads its chain with CA 0's certificate is still certified by CA 1
